@@ -10,6 +10,10 @@ import DustVerif.Driver.Worker
 import DustVerif.Driver.Deadline
 import DustVerif.Driver.MatchSet
 import DustVerif.Driver.Spdp
+import DustVerif.Driver.Chan
+import DustVerif.Driver.Cond
+import DustVerif.Driver.Timer
+import DustVerif.Driver.Rtps
 open DustVerif.Driver
 
 partial def loopStateless (h : IO.FS.Stream) (out : IO.FS.Stream) (f : String → String) : IO Unit := do
@@ -41,5 +45,9 @@ def main (args : List String) : IO UInt32 := do
   | ["deadline"] => loopStateful stdin stdout DeadlineEngine.step {}; return 0
   | ["matchset"] => loopStateful stdin stdout MatchSetEngine.step MatchSetEngine.DSt.init; return 0
   | ["spdp"] => loopStateful stdin stdout SpdpEngine.step SpdpEngine.DSt.init; return 0
+  | ["chan"] => loopStateful stdin stdout ChanEngine.step ChanEngine.init; return 0
+  | ["cond"] => loopStateful stdin stdout CondEngine.step DustVerif.Cond.Sys.init; return 0
+  | ["timer"] => loopStateful stdin stdout TimerEngine.step TimerEngine.init; return 0
+  | ["rtps"] => loopStateful stdin stdout RtpsEngine.step RtpsEngine.defaultSt; return 0
   | ["hist"] => loopStateful stdin stdout HistEngine.step HistEngine.defaultSt; return 0
   | _ => IO.eprintln "usage: dustmodel <engine>"; return 2
